@@ -5,17 +5,20 @@
 //! so queries return each row exactly once.
 
 use arrow::compute::filter_record_batch;
+use arrow::row::{OwnedRow, RowConverter, SortField};
 use arrow_array::cast::AsArray;
 use arrow_array::BooleanArray;
 use arrow_array::{Array, RecordBatch};
+use arrow_schema::SchemaRef;
 use std::collections::HashSet;
 
 use crate::Result;
 
 /// Deduplicate rows across multiple record batches.
 ///
-/// Uses (timestamp_nanos, metric_name) as the dedup key. The first occurrence
-/// of each key is kept; subsequent duplicates are filtered out.
+/// Uses the whole row (every column) as the dedup key, so distinct series of
+/// the same metric at the same timestamp are preserved. The first occurrence
+/// of each row is kept; subsequent exact duplicates are filtered out.
 ///
 /// This is applied at query time when any shard involved in the result set
 /// is in a dual-write split phase.
@@ -24,7 +27,9 @@ pub fn dedup_batches(batches: Vec<RecordBatch>) -> Result<Vec<RecordBatch>> {
         return Ok(batches);
     }
 
-    let mut seen: HashSet<(i64, String)> = HashSet::new();
+    // Rows seen so far, tracked per batch schema: row encodings of different
+    // schemas are not comparable (and such rows cannot be equal anyway).
+    let mut seen: Vec<(SchemaRef, RowConverter, HashSet<OwnedRow>)> = Vec::new();
     let mut result = Vec::with_capacity(batches.len());
 
     for batch in &batches {
@@ -69,30 +74,38 @@ pub fn dedup_batches(batches: Vec<RecordBatch>) -> Result<Vec<RecordBatch>> {
             continue;
         };
 
-        let metric_arr = match metric_col.as_string_opt::<i32>() {
-            Some(arr) => arr,
+        if metric_col.as_string_opt::<i32>().is_none() {
+            result.push(batch.clone());
+            continue;
+        }
+
+        // Encode all columns into comparable row keys
+        let schema = batch.schema();
+        let state_idx = match seen.iter().position(|(s, _, _)| *s == schema) {
+            Some(idx) => idx,
             None => {
-                result.push(batch.clone());
-                continue;
+                let fields = schema
+                    .fields()
+                    .iter()
+                    .map(|f| SortField::new(f.data_type().clone()))
+                    .collect();
+                seen.push((schema, RowConverter::new(fields)?, HashSet::new()));
+                seen.len() - 1
             }
         };
+        let (_, converter, seen_rows) = &mut seen[state_idx];
+        let rows = converter.convert_columns(batch.columns())?;
 
         // Build keep mask
         let mut keep = vec![true; batch.num_rows()];
         let mut any_dropped = false;
 
         for i in 0..batch.num_rows() {
-            let ts = match ts_values[i] {
-                Some(v) => v,
-                None => continue, // Keep nulls
-            };
-            let metric = if metric_arr.is_null(i) {
-                String::new()
-            } else {
-                metric_arr.value(i).to_string()
-            };
+            if ts_values[i].is_none() {
+                continue; // Keep nulls
+            }
 
-            if !seen.insert((ts, metric)) {
+            if !seen_rows.insert(rows.row(i).owned()) {
                 keep[i] = false;
                 any_dropped = true;
             }
